@@ -384,8 +384,20 @@ func (eng *Engine) frameObligations(fn *ssa.Function, fc *FuncContract) []struct
 					if callee.Name() == "ssa:wrapnilchk" {
 						continue
 					}
-					cfc = eng.db.Funcs[funcKey(callee)]
-					if cfc != nil {
+					if key, ps, tgt := streamIntrinsicStatic(cc, callee); key != "" && eng.db.Funcs[key] != nil {
+						// binary.Read / binary.Write / io.CopyN in their modelled forms (see streamIntrinsic)
+						cfc = eng.db.Funcs[key]
+						for i, n := range cfc.Params {
+							if i < len(ps) {
+								argOf[n] = ps[i]
+							}
+						}
+						if tgt != nil {
+							if p := fs.resolve(tgt); !fs.covered(p) {
+								report(ins.Pos(), "store through the target of binary.Read: "+p.String())
+							}
+						}
+					} else if cfc = eng.db.Funcs[funcKey(callee)]; cfc != nil {
 						args := cc.Args
 						if callee.Signature.Recv() != nil && len(args) > 0 {
 							argOf[cfc.Recv] = args[0]
